@@ -49,9 +49,12 @@ def load_specs():
 
 
 def sigcases(con):
-    names = list(con.sig)
-    alts = [con.sig[n].alternatives() for n in names]
-    return [dict(zip(names, combo)) for combo in itertools.product(*alts)]
+    out = []
+    for sig in con.sigs:
+        names = list(sig)
+        alts = [sig[n].alternatives() for n in names]
+        out.extend(dict(zip(names, combo)) for combo in itertools.product(*alts))
+    return out
 
 
 def load_findings():
